@@ -271,6 +271,23 @@ pub fn monitor(o: &Obs) -> Result<(), String> {
             }
         }
     }
+    // C10 / C11: no replier is dropped in silence - a replier the router let go of was either bound at some point (its
+    // stream was polled, or it was handed requests) or was told that another one is bound
+    for n in 0..o.n_servers {
+        let id = V + n;
+        let dropped = o.events.iter().any(|e| matches!(e, Ev::Dropped(_, i) if *i == id));
+        if !dropped || o.done { continue; }
+        let was_bound = o.events.iter().any(|e| match e {
+            Ev::StreamItem(i, _) | Ev::StreamPending(i) | Ev::StreamErr(i) | Ev::StreamEnd(i) => *i == id,
+            Ev::SinkSend(i, Frame::Message(_), _) => *i == id,
+            _ => false,
+        });
+        let told = o.events.iter().any(|e| matches!(e, Ev::SinkSend(i, Frame::Error(_), _) if *i == id));
+        let sink_failed = failed.get(&id).copied().unwrap_or(false);
+        if !was_bound && !told && !sink_failed {
+            return Err(format!("C10/C11: replier v{n} was accepted and then dropped without ever being bound or told that another replier is bound"));
+        }
+    }
     // C08 / C10: a replier whose sink failed when asked for readiness is unbound at once, so the next one to
     // register binds: a replier must not be told "already bound" when every replier before it had failed, been dropped or
     // been rejected before its own registration was even sent
@@ -340,6 +357,26 @@ pub fn monitor(o: &Obs) -> Result<(), String> {
             if (*k == 'i' || *k == 'x') && !gone.get(i).copied().unwrap_or(false) {
                 let who = if *i >= V { format!("replier v{}", *i - V) } else { format!("requestor k{i}") };
                 return Err(format!("C09: the router sleeps (no waker will fire) although the stream of {who} was still yielding when it was last polled: what it has next is never looked at"));
+            }
+        }
+    }
+    // C09: … nor with something handed to a healthy peer's sink and not flushed: nothing will wake the router to
+    // flush it (a reply that sits in a requestor's write buffer, a request in the replier's)
+    if o.sleeping_for_good && !o.done && !o.last_any_child_pending {
+        let mut unflushed: BTreeMap<usize, usize> = BTreeMap::new();
+        let mut gone: BTreeMap<usize, bool> = BTreeMap::new();
+        for e in &o.events {
+            match e {
+                Ev::SinkSend(i, _, true) => { *unflushed.entry(*i).or_insert(0) += 1; }
+                Ev::SinkFlush(i, A::Ready) => { unflushed.insert(*i, 0); }
+                Ev::Dropped(_, i) => { gone.insert(*i, true); }
+                _ => {}
+            }
+        }
+        for (i, n) in &unflushed {
+            if *n > 0 && !gone.get(i).copied().unwrap_or(false) && !failed.get(i).copied().unwrap_or(false) {
+                let who = if *i >= V { format!("replier v{}", *i - V) } else { format!("requestor k{i}") };
+                return Err(format!("C09: the router sleeps (no waker will fire) with {n} frame(s) handed to the sink of {who} and never flushed"));
             }
         }
     }
